@@ -289,7 +289,9 @@ Eval vm_compute in (4%nat, idx (fun c => let '(ops, st, tn, o, i) := c in same (
         kind = pre.get(k)
         if kind is None and k in certs:
             e1, e1u, e2, e2u = certs[k]["eq"]
-            if not certs[k]["other_ok"] and certs[k]["c05"]:
+            if k not in other:
+                pass        # identical text from both routes: trivially equivalent (whether it is well-formed is C05's business)
+            elif not certs[k]["other_ok"] and certs[k]["c05"]:
                 kind = "one-shot-malformed-chain-wellformed"
             elif certs[k]["other_ok"] and not certs[k]["c05"]:
                 kind = "chain-malformed-one-shot-wellformed"
